@@ -31,6 +31,8 @@ class Feed:
         self.leaf_entries = {}
         self.last_struct_mut = {}   # id(root) -> step index of the last structural mutation
         self.born = {}              # handle -> (op, step, source)
+        self.last_sub = {}          # parent handle -> (step, child handle, entry index) of its latest ADD_SUB
+        self.apply_info = {}        # alias -> {'top_reps': n, 'effective': bool}
 
     def probe(self, k, n=1):
         self.probes[k] = self.probes.get(k, 0) + n
@@ -96,6 +98,7 @@ class Feed:
                 if v2.get("tie"):
                     self.probe("placement-tie")
             self.flags[name] |= {"copy"} | self.flags.get(child, set())
+            self.last_sub[name] = (i, child, len(M.entries[name]) - 1)
             if child in M.ambiguous:
                 M.ambiguous.add(name)
             self.user_ops.add(id(M.roots[name]))
@@ -124,7 +127,8 @@ class Feed:
             before = M.unrolled_leaf_count(name=name) if True else 0
             plain = M.leaf_count(name)
             root = M.roots[name]
-            eff = before != plain or M.node_reps(root) != 1
+            top_reps_before = M.node_reps(root)
+            eff = before != plain or top_reps_before != 1 or not all_reps_one(M, root)
             try:
                 M.apply(name, st["as"])
             except ModelError as e:
@@ -137,6 +141,7 @@ class Feed:
                 self.probe("effective-unroll")
                 self.touch(name, i)
             self.born[st["as"]] = ("APPLY", i, name)
+            self.apply_info[st["as"]] = {"effective": eff, "top_reps_before": top_reps_before}
         elif op == "FLATTEN":
             name = st["c"]
             root = M.roots[name]
@@ -298,12 +303,162 @@ def evaluate_point(desc, i, ansP, stats):
     # exports
     findings.extend(oracles.c08(full))
     findings.extend(oracles.c15(full))
+    # transitions: copy vs source, before/after unrolling and flattening
+    try:
+        findings.extend(transition_oracles(desc, i, st, full, feed, stats))
+    except ModelError:
+        pass
     # drawing
     if what == "PLOT" and isinstance(a, dict) and "plot" in a:
         findings.extend(plot_oracle(desc, i, st, ansQ, stats))
     for f in findings:
         f.setdefault("point", i)
     return findings
+
+
+def _struct_steps_between(steps, lo, hi):
+    """True iff a duration-configuration step lies in steps(lo, hi)."""
+    return any(s["op"] in ("OVR_ENTER", "OVR_LEAVE", "SET_DUR", "SET_REP") for s in steps[lo + 1:hi])
+
+
+def transition_oracles(desc, i, st, full, feed, stats):
+    steps = desc["steps"]
+    name = st["c"]
+    M = feed.M
+    out = []
+    if name not in M.roots:
+        return out
+    root = M.roots[name]
+    ops, comps, t, ct, dur, start = oracles.parts(full)
+    if ops is None or comps is None:
+        return out
+    born = feed.born.get(name)
+    last_mut = feed.last_struct_mut.get(id(root), -1)
+
+    def tp(k):
+        stats.setdefault("transition_points", {})
+        stats["transition_points"][k] = stats["transition_points"].get(k, 0) + 1
+
+    # ---- explicit copy vs its source (implementation against implementation, no model involved)
+    if born and born[0] == "COPY" and last_mut <= born[1]:
+        src = born[2]
+        if src in M.roots and feed.last_struct_mut.get(id(M.roots[src]), -1) < born[1]:
+            exs, fsrc, _ = q_star(steps, i, {"op": "OBS", "what": "FULL", "c": src})
+            out.extend(compare_copy(full, fsrc, None, "copy()"))
+            tp("copy-vs-source")
+    # ---- nested copy (add as sub-circuit) vs the child it was copied from
+    ls = feed.last_sub.get(name)
+    if ls is not None and last_mut <= ls[0]:
+        s_step, child, k = ls
+        if child in M.roots and feed.last_struct_mut.get(id(M.roots[child]), -1) < s_step and M.roots[child] is not root:
+            owner = None
+            j = None
+            for jj, c in enumerate(comps):
+                e = c.get("ent")
+                if e is not None and e[1] == k and c["parent"] is None:
+                    j = jj
+            if j is not None:
+                exs, fchild, _ = q_star(steps, i, {"op": "OBS", "what": "FULL", "c": child})
+                out.extend(compare_copy(full, fchild, j, "add(sub-circuit)"))
+                tp("nested-vs-child")
+    # ---- before / after unrolling
+    if born and born[0] == "APPLY" and last_mut <= born[1] and born[1] > 0:
+        info = feed.apply_info.get(name, {})
+        src = born[2]
+        if info.get("effective") and info.get("top_reps_before") == 1:
+            exs, pre, _ = q_star(steps, born[1], {"op": "OBS", "what": "FULL", "c": src})
+            lib = id(root) in feed.pure_lib and id(root) not in feed.user_ops
+            out.extend(compare_unroll(pre, full, lib))
+            tp("before-after-unroll" + ("-lib" if lib else ""))
+    # ---- before / after flattening (modifier-applied library circuits keep everything)
+    if born and born[0] == "FLATTEN" and last_mut <= born[1] and born[1] > 0:
+        src = born[2]
+        if id(root) in feed.pure_lib and id(root) not in feed.user_ops and not _struct_steps_between(steps, born[1], i):
+            exs, pre, _ = q_star(steps, born[1], {"op": "OBS", "what": "FULL", "c": src})
+            pcomps = (pre.get("COMPOSITES") or {}).get("comps") or []
+            if all(c["reps"] == 1 for c in pcomps):
+                out.extend(compare_flatten_lib(pre, full))
+                tp("before-after-flatten-lib")
+    return out
+
+
+def compare_copy(full_parent, full_src, comp_index, how):
+    """Copy faithfulness, implementation against implementation: the canonical forest (kinds, channels, tags,
+    annotation fields, relation types, re-pointed internal relations) and the schedule relative to the own
+    start of the copy equal those of its source."""
+    out = []
+    ops, comps, t, ct, dur, start = oracles.parts(full_parent)
+    sops, scomps, stt, sct, sdur, sstart = oracles.parts(full_src)
+    if ops is None or sops is None or comps is None or scomps is None:
+        return out
+    a = canon.build(ops, comps, top=comp_index)
+    b = canon.build(sops, scomps)
+    if a != b:
+        out.append(oracles.F(["C05"], "copy-differs-from-source", how=how, copy=oracles._short(a), source=oracles._short(b)))
+        return out
+    if t is not None and stt is not None and ct is not None and sct is not None and len(t) == len(ops) and len(stt) == len(sops):
+        origin = ct[comp_index][0] if comp_index is not None else (start or 0.0)
+        a = canon.build(ops, comps, t=t, ct=ct, with_dur=True, top=comp_index, origin=origin)
+        b = canon.build(sops, scomps, t=stt, ct=sct, with_dur=True, origin=sstart or 0.0)
+        if a != b:
+            out.append(oracles.F(["C05"], "copy-schedule-differs-from-source", how=how, copy=oracles._short(a), source=oracles._short(b)))
+        elif comp_index is not None and sdur is not None and ct[comp_index][2] != sdur:
+            out.append(oracles.F(["C05", "C04"], "nested-copy-duration-differs-from-source", how=how, got=ct[comp_index][2], want=sdur))
+    return out
+
+
+def compare_unroll(pre, post, lib):
+    """Exporting before or after unrolling gives the same multiset of instructions and the same number of
+    measurements; for library-built circuits the identical program and the n-fold concatenated listing."""
+    from collections import Counter
+    out = []
+    a, b = pre.get("STIM"), post.get("STIM")
+    if a and b and "stim" in a and "stim" in b:
+        fa, fb = observe.expand_stim(a["stim"]), observe.expand_stim(b["stim"])
+        if lib:
+            if fa != fb:
+                out.append(oracles.F(["C08", "C06"], "stim-program-changed-by-unrolling", n_before=len(fa), n_after=len(fb),
+                                     first_diff=next((k for k, (x, y) in enumerate(zip(fa, fb)) if x != y), min(len(fa), len(fb)))))
+        elif Counter(map(repr, fa)) != Counter(map(repr, fb)):
+            out.append(oracles.F(["C08", "C06"], "stim-multiset-changed-by-unrolling", n_before=len(fa), n_after=len(fb)))
+        if a.get("nm") != b.get("nm"):
+            out.append(oracles.F(["C08"], "measurement-count-changed-by-unrolling", before=a.get("nm"), after=b.get("nm")))
+    pops, pcomps = oracles.parts(pre)[0:2]
+    qops, qcomps = oracles.parts(post)[0:2]
+    if pops is not None and qops is not None and pcomps is not None:
+        want = oracles.walk_listing(pops, pcomps, lambda lab: [lab])
+        got = [o["l"] for o in qops]
+        if lib:
+            if got != want:
+                out.append(oracles.F(["C06"], "unrolled-listing-not-concatenation", n_got=len(got), n_want=len(want),
+                                     first_diff=next((k for k, (x, y) in enumerate(zip(got, want)) if x != y), min(len(got), len(want)))))
+        elif Counter(map(repr, got)) != Counter(map(repr, want)):
+            out.append(oracles.F(["C06"], "unrolled-content-not-product-of-counts", n_got=len(got), n_want=len(want)))
+        if qcomps is not None and any(c["reps"] != 1 for c in qcomps):
+            out.append(oracles.F(["C06"], "repetition-count-not-reset", reps=[c["reps"] for c in qcomps]))
+    return out
+
+
+def compare_flatten_lib(pre, post):
+    out = []
+    pops, pcomps, pt = oracles.parts(pre)[0:3]
+    qops, qcomps, qt = oracles.parts(post)[0:3]
+    if pops is None or qops is None:
+        return out
+    if [o["l"] for o in pops] != [o["l"] for o in qops]:
+        out.append(oracles.F(["C11"], "flatten-changed-listing-order", n_before=len(pops), n_after=len(qops)))
+        return out
+    if pt is not None and qt is not None and pt != qt:
+        out.append(oracles.F(["C11"], "flatten-changed-schedule", first_diff=next((k for k, (x, y) in enumerate(zip(pt, qt)) if x != y), -1)))
+    a, b = pre.get("ACQ"), post.get("ACQ")
+    if a and b and a.get("m") is not None and a.get("m") != b.get("m"):
+        out.append(oracles.F(["C11", "C07"], "flatten-changed-acquisition-indices"))
+    a, b = pre.get("STIM"), post.get("STIM")
+    if a and b and "stim" in a and "stim" in b and observe.expand_stim(a["stim"]) != observe.expand_stim(b["stim"]):
+        out.append(oracles.F(["C11", "C08"], "flatten-changed-stim-program"))
+    if qcomps:
+        out.append(oracles.F(["C11"], "sub-circuit-remains-after-flatten", n=len(qcomps)))
+    return out
 
 
 def plot_oracle(desc, i, st, plot, stats):
